@@ -1,6 +1,6 @@
 (* C07 -- definitions freeze at first execution; clones are fully isolated.
    Only the property theorems; proofs are in proofs/EngineFacts.v. *)
-From V Require Import lib.Base model.TContext model.TTree model.TEscaper model.Engine spec.EngineSpec proofs.EngineFacts.
+From V Require Import lib.Base model.TContext model.TTree model.TEscaper model.Engine spec.EngineSpec proofs.EngineFacts proofs.EngineHistFacts.
 
 (* in EVERY world: once the set is marked executed, Parse on any of its templates fails and
    changes nothing at all *)
@@ -34,3 +34,24 @@ Print Assumptions C07_clone_after_exec.
    property over the heaps of the model that is not proved here; on the implementation it is decided
    by the projection oracle of the hist07 stream: every exec result is compared with the result of
    the history projected to the op's own name space chain. *)
+
+(* ---- over histories ---- *)
+(* a frozen name space stays frozen through EVERY further sequence of API calls (New, Parse, Clone,
+   Lookup, Execute, ExecuteTemplate, ... through any handles, of this or any other set) *)
+Theorem C07_frozen_forever : forall w nsid ops,
+  (nsid < length (w_ns w))%nat -> n_escaped (get_ns w nsid) = true ->
+  n_escaped (get_ns (run_from w ops) nsid) = true.
+Proof. exact frozen_forever. Qed.
+Print Assumptions C07_frozen_forever.
+
+(* hence: after ANY Execute / ExecuteTemplate through a handle (successful or not) and after ANY
+   further history, Parse through every handle whose template lives in that name space fails and
+   changes nothing *)
+Theorem C07_parse_fails_forever : forall w o h obj ops h' obj' p,
+  (o = OExecute h \/ exists name, o = OExecuteTemplate h name) ->
+  handle w h = Some obj ->
+  let w2 := run_from (fst (step w o)) ops in
+  handle w2 h' = Some obj' -> h_ns (get_tmpl w2 obj') = h_ns (get_tmpl w obj) ->
+  step w2 (OParse h' p) = (w2, RErrCannotParse).
+Proof. exact parse_fails_forever. Qed.
+Print Assumptions C07_parse_fails_forever.
